@@ -23,6 +23,14 @@ theorem cast_ne_of_emod_ne (u : ℤ) (h : u % (p : ℤ) ≠ 0) : ((u : ℤ) : ZM
   have := (ZMod.intCast_zmod_eq_zero_iff_dvd u p).mp h0
   exact Int.emod_eq_zero_of_dvd this
 
+theorem cast_ne_of_inv (u inv : ℤ) (h : (inv * u) % (p : ℤ) = 1) : ((u : ℤ) : ZMod p) ≠ 0 := by
+  have h1 : (((inv * u) % (p : ℤ) : ℤ) : ZMod p) = ((1 : ℤ) : ZMod p) := by rw [h]
+  rw [ZMod.intCast_mod] at h1
+  push_cast at h1
+  intro hz
+  rw [hz, mul_zero] at h1
+  exact zero_ne_one h1
+
 theorem cast_inv_of_emod (u inv : ℤ) (h : (inv * u) % (p : ℤ) = 1) : ((inv : ℤ) : ZMod p) = ((u : ℤ) : ZMod p)⁻¹ := by
   have h1 : (((inv * u) % (p : ℤ) : ℤ) : ZMod p) = ((1 : ℤ) : ZMod p) := by rw [h]
   rw [ZMod.intCast_mod] at h1
